@@ -56,6 +56,8 @@ where
     pub fn batch_end(&self, max_end: usize) -> usize {
         let size = size_of::<V::T>().max(1);
         let cap = MAX_CACHE_SIZE.div_ceil(size);
+        #[cfg(feature = "verif")]
+        let cap = rawdb::verif::max_cache_size(MAX_CACHE_SIZE).div_ceil(size);
         (self.len() + cap).min(max_end)
     }
 
